@@ -245,12 +245,19 @@ async def scenario(loop, plan, out):
             await app.send_packet(mkpacket(i, req))
             results[i] = ("ok", t0, loop.time(), None)
         except asyncio.CancelledError:
+            results[i] = ("cancelled", t0, loop.time(), None)
             raise
         except BaseException as ex:
             results[i] = (type(ex).__name__, t0, loop.time(), repr(ex))
 
     for i, req in enumerate(plan["reqs"]):
         tasks.append(asyncio.ensure_future(one(i, req)))
+        if req.get("cancel") is not None:
+            # the caller gives the request up (an outer timeout) at an instant that may fall inside its set-up commands
+            loop.call_later(req["at"] + req["cancel"], tasks[-1].cancel)
+    if plan.get("disconnect") is not None:
+        # the application is shut down (or reconnects) while requests still wait for their confirmation
+        loop.call_later(plan["disconnect"], lambda: asyncio.ensure_future(app.disconnect()))
     for u in plan.get("unsolicited", []):
         loop.call_later(u[0], sim._send_conf, u[1], u[2], u[3], u[4] if len(u) > 4 else 0)
     await asyncio.wait(tasks, timeout=APS_ACK_TIMEOUT * 2 + 60)
@@ -283,6 +290,10 @@ def check(plan) -> Result:
         if got is None:
             r.bad("C12:no-result", f"request {i}")
             continue
+        if req.get("cancel") is not None:
+            flags.add("caller-cancelled")
+            if got[0] == "cancelled":
+                continue  # the caller gave up; what matters is what this does to the OTHER requests (frame-log checks below)
         if got[0] != exp:
             r.bad(f"C12:wrong-outcome:{got[0]}-instead-of-{exp}:{req['kind'].split('-')[0]}:{req.get('conf', '-') if exp in ('ok', 'TimeoutError', 'DeliveryError') and n_att and t_acc is not None else 'enqueue'}",
                   f"request {i} {req}: got {got}; plan {plan}")
@@ -314,7 +325,10 @@ def check(plan) -> Result:
     # interleaving: from the first set-up frame of a request attempt to its send frame only its own frames
     frames = sim.frames
     open_req = None
+    gave_up = {i: res[2] for i, res in out["results"].items() if res[0] == "cancelled"}
     for tm, name, i in frames:
+        if open_req is not None and open_req != i and open_req in gave_up and gave_up[open_req] <= tm + 1e-9:
+            open_req = None  # that request's caller had given up by then: its set-up is over
         if name.startswith("send"):
             if open_req is not None and open_req != i:
                 r.bad("C12:setup-interleaved-with-other-request", f"send of request {i} at {tm} inside set-up of request {open_req}; frames {frames}; plan {plan}")
@@ -344,6 +358,8 @@ def check(plan) -> Result:
         flags.add("overlap")
     if plan.get("unsolicited"):
         flags.add("unsolicited")
+    if plan.get("disconnect") is not None:
+        flags.add("disconnect-while-waiting")
     r.nontrivial = bool(flags)
     for f in flags:
         r.cls(f)
@@ -383,13 +399,21 @@ def plans(draw, versions=(4, 8, 13, 14)):
                                              "wrong-dest-index", "wrong-dest-then-failure", "wrong-tag-then-failure", "wrong-then-right", "late-success"])),
                "wide": draw(st.integers(0, 4)),
                "wmtype": draw(st.sampled_from([0, 0, 1, 2, 3, 4, 9])),
+               **({"cancel": draw(st.sampled_from([0.0005, 0.0015, 0.0031, 0.0052, 0.021, 0.5]))} if draw(st.integers(0, 7)) == 0 else {}),
                "failcode": draw(st.integers(0, 4))}
         if kind == "uni-ext":
             req["in_table"] = draw(st.booleans())
         reqs.append(req)
     uns = draw(st.lists(st.tuples(st.sampled_from([0.001, 0.017, 0.5, 3.0]), st.sampled_from([0x1001, 0x1002, 0x1003, 0x7777]),
                                   st.integers(100, 108), st.sampled_from([0, 0x66]), st.sampled_from([0, 1, 2, 3, 4])).map(list), max_size=3))
-    return {"v": v, "reqs": reqs, "unsolicited": uns}
+    plan = {"v": v, "reqs": reqs, "unsolicited": uns}
+    if draw(st.integers(0, 7)) == 0:
+        # everything accepted at once, nothing ever confirmed, and the application disconnects in the meantime
+        for q in reqs:
+            q.update(kind="uni", enqueue=[0], conf="none")
+        plan["unsolicited"] = []
+        plan["disconnect"] = draw(st.sampled_from([0.5, 5.0, 60.0])) + max(q["at"] for q in reqs)
+    return plan
 
 
 def _worker(ctx, job):
